@@ -1,12 +1,13 @@
 #!/usr/bin/env python3
-"""tools/seedrun.py <patch.diff> [--props C01,C02] [--tier quick]
-Apply a patch to /repo, run the checks, undo the patch (always). Prints which properties raised a violation."""
+"""tools/seedrun.py <patch.diff> [--props C01,C02] [--tier quick] [--repo DIR]
+Apply a patch to /repo (or to the scratch worktree DIR), run the checks, undo the patch (always). Prints which properties raised a violation."""
 import os, subprocess, sys, json, re
 ROOT = os.path.dirname(os.path.dirname(os.path.abspath(__file__)))
 REPO = "/repo"
 def sh(*a, **k):
     return subprocess.run(a, stdout=subprocess.PIPE, stderr=subprocess.STDOUT, **k)
 def main():
+    global REPO
     patch = os.path.abspath(sys.argv[1])
     props = ["C%02d" % i for i in range(1, 21)]
     tier = "quick"
@@ -15,6 +16,8 @@ def main():
             props = sys.argv[i + 1].split(",")
         if a == "--tier":
             tier = sys.argv[i + 1]
+        if a == "--repo":
+            REPO = os.path.abspath(sys.argv[i + 1])
     st = sh("git", "-C", REPO, "status", "--porcelain").stdout.decode()
     if st.strip():
         print("refusing: /repo is not clean:\n" + st); return 2
@@ -24,7 +27,7 @@ def main():
     fired = {}
     try:
         for p in props:
-            r = sh(os.path.join(ROOT, "check"), p, "--tier", tier, cwd=ROOT)
+            r = sh(os.path.join(ROOT, "check"), p, "--tier", tier, *(["--repo", REPO] if REPO != "/repo" else []), cwd=ROOT)
             out = r.stdout.decode()
             if r.returncode != 0 or "VIOLATION" in out:
                 lines = [l for l in out.splitlines() if l and not l.startswith("    key") and not l.startswith("VIOLATION") and not l.startswith("WARNING") and not l.startswith("KNOWN")]
